@@ -97,6 +97,26 @@ def setOwnerRefs (refs : JVal) (t : JVal) : Option JVal :=
     | _ => none
   | _ => none
 
+/-- the target does not specify `metadata.ownerReferences` (and has a `metadata` map) -/
+def ownerRefsFree (t : JVal) : Bool :=
+  match t with
+  | .obj kvs =>
+    match lookup "metadata" kvs with
+    | some (.obj mkvs) => (lookup ownerReferences mkvs).isNone
+    | _ => false
+  | _ => false
+
+/-- `converted_resource["metadata"].pop("ownerReferences", None)` — the patch never carries the
+    target's own owner references (fix F7); `none` = raised -/
+def dropOwnerRefs (t : JVal) : Option JVal :=
+  if ownerRefsFree t then some t
+  else match t with
+    | .obj kvs =>
+      match lookup "metadata" kvs with
+      | some (.obj mkvs) => some (.obj (insert "metadata" (.obj (erase ownerReferences mkvs)) kvs))
+      | _ => none
+    | _ => none
+
 inductive Policy where
   | patch (delay : JVal)
   | recreate (delay : JVal)
@@ -167,7 +187,7 @@ def correct (c : Cfg) (t live : JVal) : PassResult :=
     match c.ownerFix with
     | .permFail => ⟨some live, .permFail, []⟩
     | fix =>
-      match (match fix with | .refs r => setOwnerRefs r t | _ => some t) with
+      match (match fix with | .refs r => setOwnerRefs r t | _ => dropOwnerRefs t) with
       | none => raisedAt live
       | some t' =>
         match prepareForApi c.codec t' with
